@@ -43,16 +43,19 @@ def spec_m(res_w):
     return None, True
 
 
-def one_case(run, driver, rng, reuse=False):
-    n_rep = rng.choice([6, 7, 9, 12, 20, 40, 120])
-    e = exact_election(rng, n_rep, n_partial=rng.randint(1, 6))
-    # heavy tails + partial counts above the prediction
-    for i in e.cur.index:
-        if rng.random() < 0.15:
-            f = rng.choice([0.2, 3.0, 5.0])
-            for c in ("results_dem", "results_gop", "results_turnout"):
-                e.cur.loc[i, c] = int(e.cur.loc[i, c] * f)
-    estimands = rng.choice([["turnout"], ["dem"], ["gop"], ["turnout", "dem"], ["dem", "turnout"], ["gop", "dem", "turnout"]])
+def one_case(run, driver, rng, reuse=False, given=None):
+    if given is not None:
+        e, estimands = given
+    else:
+        n_rep = rng.choice([6, 7, 9, 12, 20, 40, 120])
+        e = exact_election(rng, n_rep, n_partial=rng.randint(1, 6))
+        # heavy tails + partial counts above the prediction
+        for i in e.cur.index:
+            if rng.random() < 0.15:
+                f = rng.choice([0.2, 3.0, 5.0])
+                for c in ("results_dem", "results_gop", "results_turnout"):
+                    e.cur.loc[i, c] = int(e.cur.loc[i, c] * f)
+        estimands = rng.choice([["turnout"], ["dem"], ["gop"], ["turnout", "dem"], ["dem", "turnout"], ["gop", "dem", "turnout"]])
     case = {"election": e.describe(), "estimands": estimands, "reuse_frames": reuse}
     calls = []
     C.use_repo()
@@ -96,6 +99,12 @@ def one_case(run, driver, rng, reuse=False):
         QRS.fit = orig
     run.count("reuse frames" if reuse else "fresh frames")
     run.count(f"{len(estimands)} estimand(s)")
+    if res.get("raises") == "ModelNotEnoughSubunitsException":
+        # heavy-tailed counts can push reporting units outside the turnout-factor limits; too few are then left and the gate of
+        # C14 answers - the property is about runs that take place
+        run.case(case, False)
+        run.count("too few modelled units (gate)")
+        return
     if "raises" in res:
         run.case(case, True)
         run.violation("covariate-free run failed: " + res["raises"], input=case, impl=res, predicate="wmed_exists",
@@ -175,5 +184,10 @@ def explore(run, driver, budget):
 
 
 def replay(run, driver, payload):
-    # the generators are driven by the seed and pass recorded in the replay file (set by main): the same pass is re-run
+    if payload.get("election") and isinstance(payload.get("input"), dict):
+        run.info["rule"] = RULE
+        e = E.Election.from_json(payload["election"])
+        one_case(run, driver, run.rng, reuse=bool(payload["input"].get("reuse_frames")), given=(e, payload["input"]["estimands"]))
+        return
+    # otherwise the generators are driven by the seed and pass recorded in the replay file (set by main): the same pass is re-run
     explore(run, driver, run.budget)
